@@ -245,11 +245,28 @@ def rule_effects(model):
                     if stem is None or where in EXCEPTED:
                         continue
                     cond = False
+
+                    def expanded(test):
+                        # locals that merely alias an option of the tag
+                        # (sort_expr = self.sort_expr) read as the option
+                        t_ = ast.unparse(test)
+                        for x in ast.walk(test):
+                            if isinstance(x, ast.Name):
+                                ds = model.local_defs(fi, x.id)
+                                if len(ds) == 1 and isinstance(
+                                        ds[0], ast.Attribute) and isinstance(
+                                        ds[0].value, ast.Name) and \
+                                        ds[0].value.id == 'self':
+                                    import re as _re
+                                    t_ = _re.sub(r'(?<![\w.])%s(?!\w)' %
+                                                 _re.escape(x.id),
+                                                 ast.unparse(ds[0]), t_)
+                        return t_
                     for anc in ancestors(n):
                         if isinstance(anc, ast.If) and \
-                                f'self.{stem}' in norm(anc.test):
+                                f'self.{stem}' in expanded(anc.test):
                             cond = True
-                            t = ast.unparse(anc.test)
+                            t = expanded(anc.test)
                             # an *_expr option requests the feature only
                             # when it evaluates true
                             if stem == 'reverse' and \
